@@ -51,8 +51,11 @@ def run_case(case, rng):
     case.family = str(special)
     case.params = dict(n=len(S), actions=len(A), obs=len(OL), gamma=gamma, eps=eps, horizon=horizon, min_expansions=minexp)
     sar = np.array(pomdp.state_action_reward_matrix)
-    if horizon is None and sar.max() == sar.min():
-        raise Precondition("constant reward matrix with horizon=None (PBVI's horizon formula divides by the range)")
+    if horizon is None and eps >= sar.max() - sar.min():
+        # horizon = ceil(log(eps / (rmax - rmin)) / log(gamma)) is undefined (range 0 -> ZeroDivisionError) or
+        # non-positive (eps >= range -> zero sweeps -> UnboundLocalError): a precondition of the algorithm's own
+        # infinite-horizon formula, recorded as such and not judged
+        raise Precondition("convergence threshold >= reward range with horizon=None (PBVI's horizon formula needs eps < rmax-rmin)")
     scale = max(1.0, np.abs(M.R).max() / (1 - gamma))
     tol = 1e-8 * scale
     facts = dict(special=special, gamma=gamma, horizon=horizon, eps=eps)
